@@ -400,7 +400,7 @@ func main() {
 			"values are compared between whole operations only: a node modified and restored inside one call is not observable and not claimed",
 			"memory reachable from a map/set value = what the reflection walk over its unexported fields reaches (pointers, slices up to len, interfaces)",
 		}
-		hashers := []string{"identity", "pairs-collide", "high-bits"}
+		hashers := []string{"identity", "pairs-collide", "high-bits", "pairs-shared-path", "constant", "beside-collision"}
 		ballast := []int{0, 4, 14, 27}
 		depth := 2
 		if r.Thorough() {
